@@ -51,11 +51,19 @@ fn compile_to<W: Write>(matrix: &[u8], csv: &[u8], w: &mut W) -> Result<(), Stri
 }
 
 /// seq 0: the documented sequence; 1: the error of resolve() is ignored and compile() is called anyway;
-/// 2: compile() without resolve(). Every sequence must end in Ok or Err, never in a panic.
+/// 2: compile() without resolve(); 3: without read_conn(); 4: the error of read_conn() is ignored.
+/// Every sequence must end in Ok or Err, never in a panic, and Ok means a valid dictionary.
 fn compile_seq<W: Write>(matrix: &[u8], csv: &[u8], w: &mut W, seq: u8) -> Result<(), String> {
     let mut b = DictBuilder::new_system();
     b.set_compile_time(std::time::UNIX_EPOCH + std::time::Duration::from_secs(env::FIXED_TIME_SECS));
-    b.read_conn(matrix).map_err(|e| format!("conn: {:?}", e))?;
+    match seq {
+        // 3: no connection matrix is offered at all; 4: the error of read_conn() is ignored
+        3 => {}
+        4 => {
+            let _ = b.read_conn(matrix);
+        }
+        _ => b.read_conn(matrix).map_err(|e| format!("conn: {:?}", e))?,
+    }
     b.read_lexicon(csv).map_err(|e| format!("lexicon: {:?}", e))?;
     match seq {
         0 => {
@@ -421,12 +429,21 @@ fn run_case(mu: &Mutated, keys: &[String], res: &ResDir, rep: &mut Report, scen:
                 return false;
             }
             // other call sequences on the same rejected input must also end in an error value
-            for seq in [1u8, 2] {
+            for seq in [1u8, 2, 4] {
                 let mut sink = Vec::new();
+                let names = ["", "error of resolve() ignored, then compile()", "compile() without resolve()", "", "error of read_conn() ignored"];
                 match guard(|| compile_seq(&mu.matrix, &mu.csv, &mut sink, seq)) {
                     Err(p) => {
-                        rep.violation("compile_panic", &p.site, &format!("{} with call sequence {} ({}): {}", mu.what, seq, if seq == 1 { "error of resolve() ignored, then compile()" } else { "compile() without resolve()" }, p.msg), mu.probe, scen());
+                        rep.violation("compile_panic", &p.site, &format!("{} with call sequence {} ({}): {}", mu.what, seq, names[seq as usize], p.msg), mu.probe, scen());
                         return false;
+                    }
+                    Ok(Ok(())) if seq == 4 && !mu.splits_touched => {
+                        // whatever was kept of the matrix: a dictionary reported as compiled must be valid
+                        rep.count("alternative_call_sequences", 1);
+                        if let Err((kind, site, msg)) = arbiter(res, &sink, &[], keys, false, rep) {
+                            rep.violation(&kind, &site, &format!("{}; the error of read_conn() is ignored and compile() reports success: {}", mu.what, msg), mu.probe, scen());
+                            return false;
+                        }
                     }
                     Ok(_) => rep.count("alternative_call_sequences", 1),
                 }
@@ -490,6 +507,21 @@ pub fn run(ctx: &Ctx, rep: &mut Report) {
         let base = Mutated { matrix: mtext.clone().into_bytes(), csv: csv.clone().into_bytes(), what: "unmodified input".into(), expect: Expect::Either, splits_touched: false, probe: "" };
         let scen0 = || json!({"world_index": wi, "mutation": "none", "matrix": mtext, "lexicon_csv": csv});
         run_case(&base, &keys, &res, rep, &scen0);
+        // the same lexicon without any connection matrix: an error value, or a valid dictionary
+        {
+            rep.eval();
+            let mut sink = Vec::new();
+            match guard(|| compile_seq(mtext.as_bytes(), csv.as_bytes(), &mut sink, 3)) {
+                Err(p) => rep.violation("compile_panic", &p.site, &format!("compile() of a system dictionary without read_conn(): {}", p.msg), "", scen0()),
+                Ok(Err(_)) => rep.count("compilations_without_matrix_rejected", 1),
+                Ok(Ok(())) => {
+                    rep.count("compilations_without_matrix_accepted", 1);
+                    if let Err((kind, site, msg)) = arbiter(&res, &sink, &[], &keys, false, rep) {
+                        rep.violation(&kind, &site, &format!("compile() of a system dictionary without read_conn() reports success: {}", msg), "", scen0());
+                    }
+                }
+            }
+        }
 
         // (a) mutated inputs
         for mi in 0..10 {
@@ -552,6 +584,54 @@ pub fn run(ctx: &Ctx, rep: &mut Report) {
                         }
                     }
                 }
+            }
+        }
+
+        // (b') the same question for the builders behind the Python entry points and the command line: the output file is
+        // cut off after L bytes by a file size limit; success with a shorter file is a sink failure reported as success
+        if wi % 16 == 6 && ctx.stage == "main" {
+            let pypkg = std::env::var("VH_PYPKG").unwrap_or_default();
+            let cli = std::env::var("VH_CLI").unwrap_or_default();
+            let script = std::env::var("VH_PYDRIVER").map(|d| d.replace("drive.py", "sink.py")).unwrap_or_else(|_| "/verif/py/sink.py".to_string());
+            if !pypkg.is_empty() && std::path::Path::new(&pypkg).exists() {
+                let dir = ResDir::new();
+                dir.write("matrix.def", &mtext);
+                dir.write("lex.csv", &csv);
+                // a small user lexicon over this system dictionary
+                let pool = dictgen::pos_pool();
+                let mut ucsv = String::new();
+                for k in 0..6 {
+                    let e = Entry::simple(&format!("ゆ{}", "ざ".repeat(k + 1)), 0, 0, 100, &pool[0]);
+                    let mut l = Lexicon::default();
+                    l.user = true;
+                    ucsv.push_str(&l.row_csv(&e, Some(&lex)));
+                    ucsv.push('\n');
+                }
+                dir.write("user.csv", &ucsv);
+                rep.eval();
+                let o = std::process::Command::new("python3").arg(&script).arg(&dir.path).arg(&pypkg).arg(&cli).arg(format!("{}", ctx.seed.wrapping_add(wi))).output();
+                match o {
+                    Ok(o) if o.status.success() => {
+                        if let Ok(v) = serde_json::from_str::<Value>(String::from_utf8_lossy(&o.stdout).trim()) {
+                            for k in ["py_sink_fault_points", "py_user_sink_fault_points", "cli_sink_fault_points"] {
+                                rep.count(k, v[k].as_u64().unwrap_or(0));
+                            }
+                            if let Some(ms) = v["mismatches"].as_array() {
+                                for m in ms {
+                                    rep.violation(m["kind"].as_str().unwrap_or("sink_failure_reported_as_success"), m["site"].as_str().unwrap_or("python"), m["msg"].as_str().unwrap_or(""), "",
+                                        json!({"world_index": wi, "matrix": mtext, "lexicon_csv": csv, "user_csv": ucsv}));
+                                }
+                            }
+                            if let Some(n) = v.get("note") {
+                                rep.notes.push(format!("sink.py: {}", n));
+                            }
+                        }
+                    }
+                    Ok(o) => rep.notes.push(format!("sink.py failed: {}", clip(&String::from_utf8_lossy(&o.stderr), 300))),
+                    Err(e) => rep.notes.push(format!("python3 could not be started: {}", e)),
+                }
+            } else {
+                rep.count("python_package_not_available", 1);
             }
         }
 
